@@ -26,9 +26,12 @@ def compare(top_c, pkg, riders=True, spice=True):
         return False, "package reading failed: " + str(ex)
     if want != got:
         return False, "C01 net partition differs: " + describe_diff(want, got)
-    wl2 = [(p, PRIM_EXPORT.get(k, k), prm) for p, k, prm in wl]
-    if sorted(wl2) != sorted(gl):
-        return False, f"C01 leaf devices/parameters differ: want {sorted(wl2)[:3]} got {sorted(gl)[:3]}"
+    wl2 = sorted((p, PRIM_EXPORT.get(k, k), prm) for p, k, prm in wl)
+    gl = sorted(gl)
+    # same leaf devices; every parameter the design gives must be on the instance with that value
+    # (defaulted parameters of the primitive's parameter class may appear in addition)
+    if [x[:2] for x in wl2] != [x[:2] for x in gl] or any(not set(a[2]) <= set(b[2]) for a, b in zip(wl2, gl)):
+        return False, f"C01 leaf devices/parameters differ: want {wl2[:3]} got {gl[:3]}"
     if not riders:
         return True, ""
     # C06: from_proto and both netlisters accept it; C11: round trip
@@ -44,6 +47,9 @@ def compare(top_c, pkg, riders=True, spice=True):
             vlsirtools.netlist(pkg=pkg, dest=s, fmt=fmt)
             texts[fmt] = s.getvalue()
         except Exception as ex:
+            if "direct-netlisting of physical" in str(ex):
+                spice = False  # generic physical primitives are documented as not netlistable before PDK compilation
+                continue
             return False, f"C06 {fmt} netlister rejected the package: " + repr(ex)[:200]
     if spice:
         try:
